@@ -204,6 +204,8 @@ func c10Letters(n int, thorough bool) []Letter {
 		ls = append(ls, Letter{Name: fmt.Sprintf("s%d open", s), K: kOpen, S: s})
 		ls = append(ls, Letter{Name: fmt.Sprintf("s%d params", s), K: kParams, S: s, P: pOK})
 		ls = append(ls, Letter{Name: fmt.Sprintf("s%d election %v", s, ID{Lo: uint64(s + 1)}), K: kElect, S: s, ID: ID{Lo: uint64(s + 1)}})
+		// the session raises its own id (operations it holds were stamped with the earlier one)
+		ls = append(ls, Letter{Name: fmt.Sprintf("s%d election %v", s, ID{Lo: uint64(s + 5)}), K: kElect, S: s, ID: ID{Lo: uint64(s + 5)}})
 		for _, e := range []string{"ADD nh1", "ADD nhg1{1}", "ADD v4->1", "ADD nh2"} {
 			ls = append(ls, Letter{Name: fmt.Sprintf("s%d op[%s]", s, e), K: kOps, S: s, Ops: []OpT{{entry(e), stOwn}}})
 		}
@@ -235,7 +237,23 @@ func c10Searches(tier string) []named {
 	o := &Options{Letters: ls, Sessions: n, Checks: Checks{Disconnect: true}}
 	// from a populated server: primary established with a chain of entries and a second next-hop installed
 	l1 := c10Letters(1, false)
-	init := []Letter{l1[0], l1[1], l1[2], l1[3], l1[6], l1[4], l1[5]} // open, params, election, nh1, nh2, nhg1, v4
+	pick := func(ls []Letter, names ...string) []Letter {
+		var out []Letter
+		for _, nm := range names {
+			found := false
+			for _, l := range ls {
+				if l.Name == nm {
+					out, found = append(out, l), true
+					break
+				}
+			}
+			if !found {
+				panic("streams: no letter " + nm)
+			}
+		}
+		return out
+	}
+	init := pick(l1, "s0 open", "s0 params", "s0 election (0,1)", "s0 op[ADD nh1]", "s0 op[ADD nh2]", "s0 op[ADD nhg1{1}]", "s0 op[ADD v4->1]")
 	ls2 := c10Letters(2, tier == "thorough")
 	o2 := &Options{Letters: ls2, Sessions: 2, Checks: Checks{Disconnect: true}, Init: init}
 	// ... and with entries in BOTH network instances (a Get over all instances walks them one after the other)
@@ -243,19 +261,18 @@ func c10Searches(tier string) []named {
 	o3 := &Options{Letters: c10Letters(1, tier == "thorough"), Sessions: 1, Checks: Checks{Disconnect: true}, Init: append(append([]Letter{}, init...), both)}
 	// ... and with a superseded session still connected while the primary has an operation held
 	l2 := c10Letters(2, false)
-	per := 0
-	for i, l := range l2 {
-		if l.Name == "s1 open" {
-			per = i
-		}
-	}
-	init4 := []Letter{l2[0], l2[1], l2[2], l2[per], l2[per+1], l2[per+2], l2[per+5]} // s0: open, params, election 1; s1: open, params, election 2, op[ADD v4->1] (held)
+	init4 := pick(l2, "s0 open", "s0 params", "s0 election (0,1)", "s1 open", "s1 params", "s1 election (0,2)", "s1 op[ADD v4->1]")
 	o4 := &Options{Letters: ls2, Sessions: 2, Checks: Checks{Disconnect: true}, Init: init4}
+	// ... and with a primary that holds an operation and has RAISED its own election id since (the held operation
+	// carries the earlier id): when it goes away nothing of it may survive
+	init5 := pick(l1, "s0 open", "s0 params", "s0 election (0,1)", "s0 op[ADD v4->1]", "s0 election (0,5)")
+	o5 := &Options{Letters: ls2, Sessions: 2, Checks: Checks{Disconnect: true}, Init: init5}
 	return []named{
 		{fmt.Sprintf("faults/%d-sessions/from-empty", n), o, depth},
 		{"faults/2-sessions/from-chain-installed", o2, depth - 3},
 		{"faults/1-session/from-both-instances-populated", o3, depth - 3},
 		{"faults/2-sessions/from-superseded-session-and-held-operation", o4, 3},
+		{"faults/2-sessions/from-primary-that-raised-its-id-holding-an-operation", o5, 3},
 	}
 }
 
